@@ -213,6 +213,10 @@ pub fn ref_verify(kind: HashKind, nvf: u64, height: u64, queries: &[(u64, Felt)]
         known = next;
         d -= 1;
     }
+    // in-range leaf indices end at node 0 of depth 0, and only there
+    if known.len() != 1 || known[0].0 != 0 {
+        return None;
+    }
     Some(known[0].1)
 }
 
